@@ -130,7 +130,6 @@ def Unproved : List String :=
    "UniqueVariableNamesChecker", "NoUndefinedVariablesChecker", "NoUnusedVariablesChecker",
    "KnownDirectivesChecker", "KnownArgumentNamesChecker", "ValuesOfCorrectTypeChecker",
    "ProvidedRequiredArgumentsChecker", "VariablesInAllowedPositionChecker",
-   "OverlappingFieldsCanBeMergedChecker", "UniqueInputFieldNamesChecker",
-   "UniqueFragmentNamesChecker", "UniqueOperationNameChecker"]
+   "OverlappingFieldsCanBeMergedChecker", "UniqueInputFieldNamesChecker"]
 
 end PyGql.Validate.Spec
